@@ -3,7 +3,7 @@
    [decode = notes_of_grid o parse_grid]; these theorems are about every grid, i.e. every
    number of players, measures, rows per measure and columns. *)
 From Coq Require Import List ZArith NArith Bool Sorting.Sorted.
-From SV Require Import Sx Str Notes Proofs.C07 Proofs.NotesText Proofs.NotesTextGen.
+From SV Require Import Sx Str Notes Proofs.C07 Proofs.NotesText Proofs.NotesTextGen Proofs.NotesColumns.
 Import ListNotations.
 Open Scope Z_scope.
 
@@ -74,6 +74,26 @@ Theorem C07_wellformed_text_parses : forall g, g <> [] -> Forall gp_ok g ->
   parse_grid (gg_text g) = Some (map (map gm_rows) g).
 Proof. exact parse_grid_general. Qed.
 Print Assumptions C07_wellformed_text_parses.
+
+(* "the reported column count equals the row width", for every such text: NoteData._get_columns (text up to the first
+   comma, stripped, first line, stripped, keysound brackets removed) reports the width of the first row whenever the first
+   measure has at least two rows, or is followed by a comma, or is the whole text.  (The remaining shape - a routine
+   chart whose first player consists of a single one-row measure - is outside what the code supports: it counts the
+   '&' and the next player's row as columns.) *)
+Theorem C07_wellformed_text_columns : forall m0 p0 g', Forall gp_ok ((m0 :: p0) :: g') ->
+  (m_rest m0 <> [] \/ p0 <> [] \/ g' = []) ->
+  columns (gg_text ((m0 :: p0) :: g')) = Some (length (l_r (m_l0 m0))).
+Proof. exact columns_general. Qed.
+Print Assumptions C07_wellformed_text_columns.
+
+(* ... hence the whole decoder (column count, then one note per non-zero cell by the theorems above) *)
+Theorem C07_wellformed_text_decodes : forall m0 p0 g', Forall gp_ok ((m0 :: p0) :: g') ->
+  (m_rest m0 <> [] \/ p0 <> [] \/ g' = []) ->
+  grid_ks_ok (length (l_r (m_l0 m0))) (map (map gm_rows) ((m0 :: p0) :: g')) = true ->
+  decode (gg_text ((m0 :: p0) :: g')) =
+  Some (length (l_r (m_l0 m0)), notes_of_grid (map (map gm_rows) ((m0 :: p0) :: g'))).
+Proof. exact decode_general. Qed.
+Print Assumptions C07_wellformed_text_decodes.
 
 (* non-vacuity: a 2-player text with a 3-row measure, a keysound that shifts later columns, CRLF and blanks *)
 Example C07_example :
